@@ -133,6 +133,7 @@ def explore(ctx, depth):
     cases = docrun.make_cases(ctx, 12 if depth == 'quick' else 120, max_measures=4)
     # documents with a spine of a type the library has no importer for (the default spine-type set does not contain it)
     cases += docrun.make_cases(ctx, 4 if depth == 'quick' else 30, max_measures=3, unknown=True)
+    docrun.reuse_objects(ctx, cases, steps=120)
     tmpdir = tempfile.mkdtemp(prefix='kernverif_c14_')
     try:
         for case in cases:
